@@ -277,6 +277,27 @@ func (e *loopEnv) view(run *harness.Run, X string) *siteView {
 	return v
 }
 
+func sameCmd(a *fakeredis.App, name string, want [][]byte) bool {
+	if !strings.EqualFold(a.Cmd, name) || len(a.Args) != len(want) {
+		return false
+	}
+	for j := range want {
+		if !bytes.Equal(a.Args[j], want[j]) {
+			return false
+		}
+	}
+	return true
+}
+
+func argStrs(name string, args [][]byte) string {
+	var sb strings.Builder
+	sb.WriteString(name)
+	for _, x := range args {
+		fmt.Fprintf(&sb, " %q", x)
+	}
+	return sb.String()
+}
+
 func txnDump(apps []fakeredis.App, txn int64) []string {
 	var out []string
 	if txn == 0 {
@@ -369,13 +390,15 @@ func (e *loopEnv) judge(run *harness.Run, X string) *siteView {
 				"as_seen_in_stream_of_" + v.Y: e.streamAround(sy, b.id)}))
 	}
 
-	// expected: what Y's clients got propagated
+	// expected: what Y's clients got propagated, projected by the reference filter
+	rf := c.refFilter()
 	ylog := sy.fLog
 	yharn := sy.fHarn
 	type expE struct {
 		p        *fakeredis.PropCmd
 		id       string
 		filtered bool
+		want     [][]byte // arguments the peer must execute (the projection onto the accepted keys)
 		n        int
 		first    int // index into v.biz of the first delivery
 	}
@@ -393,7 +416,11 @@ func (e *loopEnv) judge(run *harness.Run, X string) *siteView {
 		if id == "" {
 			continue
 		}
-		x := &expE{p: p, id: id, filtered: c.filteredOut(p.Name(), p.Args[1:]), first: -1}
+		want, fwd := project(rf, p.Name(), p.Args[1:])
+		x := &expE{p: p, id: id, filtered: !fwd, want: want, first: -1}
+		if fwd && len(want) != len(p.Args)-1 {
+			run.Count("client_writes_projected_to_accepted_keys", 1)
+		}
 		exp = append(exp, x)
 		expByID[id] = x
 	}
@@ -494,6 +521,25 @@ func (e *loopEnv) judge(run *harness.Run, X string) *siteView {
 					idxs = append(idxs, v.biz[j].app.Idx)
 				}
 			}
+			// several executions carry this id: are they all the write itself, or did another command
+			// end up with (part of) this write's arguments?
+			eq := 0
+			for j := range v.biz {
+				b := &v.biz[j]
+				if b.id != x.id || (c.LateReverse && X == "A" && b.rdb) {
+					continue
+				}
+				if sameCmd(b.app, x.p.Name(), x.want) {
+					eq++
+				} else {
+					e.violation(run, fmt.Sprintf("altered|cmd=%s|%s", strings.ToUpper(b.app.Cmd), ctx),
+						fmt.Sprintf("site %s: link %s→%s executed a command that carries the arguments of client write %s of site %s but is not that write (restricted to its accepted keys)", X, v.Y, X, x.id, v.Y),
+						e.witness(map[string]any{"propagated": propStr(x.p), "must_execute": argStrs(x.p.Name(), x.want), "executed": appStr(b.app), "transaction": txnDump(sx.fApps, b.app.Txn)}))
+				}
+			}
+			if eq <= 1 {
+				continue
+			}
 			// a repeat is attributable to a restart iff a new incarnation of the link began between
 			// the two executions
 			restarts := e.links[X].restartLog()
@@ -530,14 +576,10 @@ func (e *loopEnv) judge(run *harness.Run, X string) *siteView {
 		default:
 			delivered++
 			a := v.biz[x.first].app
-			same := strings.EqualFold(a.Cmd, x.p.Name()) && len(a.Args) == len(x.p.Args)-1
-			for j := 0; same && j < len(a.Args); j++ {
-				same = bytes.Equal(a.Args[j], x.p.Args[j+1])
-			}
-			if !same {
+			if !sameCmd(a, x.p.Name(), x.want) {
 				e.violation(run, fmt.Sprintf("altered|cmd=%s|%s", x.p.Name(), ctx),
-					fmt.Sprintf("site %s: client write %s was executed with other arguments than site %s propagated", X, x.id, v.Y),
-					e.witness(map[string]any{"propagated": propStr(x.p), "executed": appStr(a)}))
+					fmt.Sprintf("site %s: client write %s was executed with other arguments than site %s propagated (restricted to the accepted keys)", X, x.id, v.Y),
+					e.witness(map[string]any{"propagated": propStr(x.p), "must_execute": argStrs(x.p.Name(), x.want), "executed": appStr(a), "transaction": txnDump(sx.fApps, a.Txn)}))
 			}
 			run.Count("delivered|"+kind, 1)
 			if x.p.Rewrite != "" {
@@ -550,7 +592,7 @@ func (e *loopEnv) judge(run *harness.Run, X string) *siteView {
 	// snapshot keys: one transaction each
 	if e.snapDone[v.Y+"→"+X] {
 		for id, k := range snapKeys {
-			filtered := c.filteredOut("RESTORE", [][]byte{k.Key})
+			filtered := !rf.SnapshotKey(0, k.Key)
 			n := len(snapTxns[id])
 			switch {
 			case filtered:
@@ -582,7 +624,7 @@ func (e *loopEnv) judge(run *harness.Run, X string) *siteView {
 		if x.filtered || x.n != 1 {
 			continue
 		}
-		for _, k := range keysOf(x.p.Name(), x.p.Args[1:]) {
+		for _, k := range keysOf(x.p.Name(), x.want) {
 			at(string(k)).want = append(at(string(k)).want, x.id)
 		}
 	}
